@@ -498,6 +498,10 @@ class Response:
         if self._cookies is None:
             self._cookies = http_cookies.SimpleCookie()
 
+        # NOTE: Assigning to an existing key re-uses its Morsel, and with it
+        #   the attributes of the earlier set_cookie()/unset_cookie() call.
+        self._cookies.pop(name, None)
+
         try:
             self._cookies[name] = value
         except http_cookies.CookieError as e:  # pragma: no cover
@@ -626,6 +630,11 @@ class Response:
             self._cookies = http_cookies.SimpleCookie()
 
         self._cookies[name] = ''
+
+        # NOTE: Assigning to an existing key re-uses its Morsel; a Max-Age left
+        #   over from an earlier set_cookie() takes precedence over Expires
+        #   (RFC 6265, Section 5.3) and would keep the cookie alive.
+        self._cookies[name]['max-age'] = ''
 
         # NOTE(Freezerburn): SimpleCookie apparently special cases the
         # expires attribute to automatically use strftime and set the
